@@ -108,11 +108,15 @@ def rule_guard(repo: Repo) -> RuleResult:
     ph = L.prov(repo, h)
     r.site(h.qn + " [interference]")
     rets = L.func_returns(h)
-    if len(rets) != 1:
-        raise AnalysisError("_validate_well_defined_action_insertion: single return expected")
-    e = rets[0].value
-    if not (isinstance(e, ast.UnaryOp) and isinstance(e.op, ast.Not) and isinstance(e.operand, ast.BoolOp) and isinstance(e.operand.op, ast.Or)):
-        raise AnalysisError("_validate_well_defined_action_insertion: `not (a or b ...)` expected")
+    mains = [x for x in rets if isinstance(x.value, ast.UnaryOp) and isinstance(x.value.op, ast.Not) and isinstance(x.value.operand, ast.BoolOp)
+             and isinstance(x.value.operand.op, ast.Or)]
+    if len(mains) != 1:
+        raise AnalysisError("_validate_well_defined_action_insertion: one `return not (a or b ...)` expected")
+    e = mains[0].value
+    shortcuts = [x for x in rets if x is not mains[0] and not (isinstance(x.value, ast.Constant) and x.value.value is False)]
+    if shortcuts:
+        r.fail(Finding("C15.guard", h, "interference-bypassed", f"`{unparse(shortcuts[0], 60)}` accepts an insertion without running the interference test "
+                       f"(e.g. two actions writing the same fluent end up in one step)", node=shortcuts[0]))
 
     def role(expr) -> str:
         tr = ph.trace(expr)
@@ -245,6 +249,48 @@ def rule_thread(repo: Repo) -> RuleResult:
     return r
 
 
+def rule_agent(repo: Repo) -> RuleResult:
+    r = RuleResult("C15.agent", "the executing agent of an action is the first of ITS parameters that is an agent name",
+                   "each agent's actions stay in that agent's slot")
+    f = repo.func(f"{PC}._extract_plan_actions")
+    p = L.prov(repo, f)
+    r.site(f.qn)
+    apps = [c for c in L.calls_in(f.node) if isinstance(c.func, ast.Attribute) and c.func.attr == "append"]
+    ok = False
+    why = "executing agent expression not recognised"
+    if apps and isinstance(apps[0].args[0], ast.Tuple) and len(apps[0].args[0].elts) == 2:
+        agent = apps[0].args[0].elts[1]
+        src = agent
+        if isinstance(agent, ast.Name):
+            for n in ast.walk(f.node):
+                if isinstance(n, ast.Assign) and any(isinstance(t, ast.Name) and t.id == agent.id for t in n.targets):
+                    src = n.value
+        comp = None
+        first = False
+        if isinstance(src, ast.Subscript) and isinstance(src.slice, ast.Constant) and src.slice.value == 0 and isinstance(src.value, (ast.ListComp, ast.GeneratorExp)):
+            comp, first = src.value, True
+        if isinstance(src, ast.Call) and callee_name(src) == "next" and src.args and isinstance(src.args[0], (ast.GeneratorExp, ast.ListComp)):
+            comp, first = src.args[0], True
+        if comp is not None and first:
+            gen = comp.generators[0]
+            it = p.trace(gen.iter)
+            over_params = any("call:split" in x and any(s.startswith("slice:1") for s in x) for x in it) and not any(x == ("param:agent_names",) for x in it)
+            cond = gen.ifs[0] if len(gen.ifs) == 1 else None
+            member = isinstance(cond, ast.Compare) and isinstance(cond.ops[0], ast.In) and all(x == ("param:agent_names",) for x in p.trace(cond.comparators[0]))
+            elt_is_var = isinstance(comp.elt, ast.Name) and isinstance(gen.target, ast.Name) and comp.elt.id == gen.target.id
+            ok = over_params and member and elt_is_var
+            if not over_params:
+                why = "the search runs over the agent list (first agent in agent_names that occurs in the action), not over the action's parameters"
+            elif not member:
+                why = "the filter is not membership in agent_names"
+    if ok:
+        r.ok({"executing_agent": "[p for p in action_parameters if p in agent_names][0]"})
+    else:
+        r.fail(Finding("C15.agent", f, "executing-agent", f"executing agent: {why}"))
+    r.require_sites(1)
+    return r
+
+
 def rule_extract(repo: Repo) -> RuleResult:
     r = RuleResult("C15.extract", "plan actions are read in match order, lower-cased; name = first token, parameters = the rest, agent = a parameter that is an agent name",
                    "keeps every action and each agent's relative order")
@@ -271,4 +317,4 @@ def rule_extract(repo: Repo) -> RuleResult:
 
 
 def rules(repo: Repo, tier: str) -> List[RuleResult]:
-    return [rule_guard(repo), rule_once(repo), rule_thread(repo), rule_extract(repo)]
+    return [rule_guard(repo), rule_once(repo), rule_thread(repo), rule_agent(repo), rule_extract(repo)]
